@@ -4,6 +4,12 @@
 //! a deterministic function of the operation history.  Everything else of the
 //! real crate is re-exported unchanged.
 //!
+//! An entry guard (`Entry`, `OccupiedEntry`, `VacantEntry`) holds a real bucket lock of
+//! scc.  While a task holds one -- and while a closure passed to `update`, `read`, `scan`,
+//! ... runs under such a lock -- the simulator does not switch away from it
+//! (`verif_rt::RealGuard`): on the one OS thread another task reaching for the same bucket
+//! would block for good, where in a real run it would simply wait its turn.
+//!
 //! Granularity: one scc call is atomic for the simulator (the yield is in front
 //! of the call, not inside it); scc's own bucket locking / epoch code runs for
 //! real on the single simulator thread.
@@ -18,8 +24,8 @@ pub use real_scc::{
 };
 
 pub mod hash_map {
-    pub use super::{FixedState, HashMap};
-    pub use real_scc::hash_map::{Entry, OccupiedEntry, Reserve, VacantEntry};
+    pub use super::{Entry, FixedState, HashMap, OccupiedEntry, VacantEntry};
+    pub use real_scc::hash_map::Reserve;
 }
 
 /// Deterministic `BuildHasher` (FNV-1a 64 with a final avalanche).
@@ -108,14 +114,20 @@ where
     H: BuildHasher,
 {
     #[inline]
-    pub fn entry(&self, key: K) -> real_scc::hash_map::Entry<'_, K, V, H> {
+    pub fn entry(&self, key: K) -> Entry<'_, K, V, H> {
         point("map_entry");
-        self.inner.entry(key)
+        Entry::wrap(self.inner.entry(key))
     }
     #[inline]
-    pub fn first_entry(&self) -> Option<real_scc::hash_map::OccupiedEntry<'_, K, V, H>> {
+    pub fn first_entry(&self) -> Option<OccupiedEntry<'_, K, V, H>> {
         point("map_first_entry");
-        self.inner.first_entry()
+        self.inner.first_entry().map(OccupiedEntry::wrap)
+    }
+    #[inline]
+    pub fn any_entry<P: FnMut(&K, &V) -> bool>(&self, pred: P) -> Option<OccupiedEntry<'_, K, V, H>> {
+        point("map_first_entry");
+        let _g = verif_rt::RealGuard::new();
+        self.inner.any_entry(pred).map(OccupiedEntry::wrap)
     }
     #[inline]
     pub fn insert(&self, key: K, val: V) -> Result<(), (K, V)> {
@@ -135,6 +147,7 @@ where
         U: FnOnce(&K, &mut V) -> R,
     {
         point("map_update");
+        let _g = verif_rt::RealGuard::new();
         self.inner.update(key, updater)
     }
     #[inline]
@@ -153,16 +166,17 @@ where
         Q: Eq + Hash + ?Sized,
     {
         point("map_remove");
+        let _g = verif_rt::RealGuard::new();
         self.inner.remove_if(key, condition)
     }
     #[inline]
-    pub fn get<Q>(&self, key: &Q) -> Option<real_scc::hash_map::OccupiedEntry<'_, K, V, H>>
+    pub fn get<Q>(&self, key: &Q) -> Option<OccupiedEntry<'_, K, V, H>>
     where
         K: Borrow<Q>,
         Q: Eq + Hash + ?Sized,
     {
         point("map_get");
-        self.inner.get(key)
+        self.inner.get(key).map(OccupiedEntry::wrap)
     }
     #[inline]
     pub fn read<Q, R, F: FnOnce(&K, &V) -> R>(&self, key: &Q, reader: F) -> Option<R>
@@ -171,6 +185,7 @@ where
         Q: Eq + Hash + ?Sized,
     {
         point("map_read");
+        let _g = verif_rt::RealGuard::new();
         self.inner.read(key, reader)
     }
     #[inline]
@@ -185,21 +200,25 @@ where
     #[inline]
     pub fn scan<F: FnMut(&K, &V)>(&self, scanner: F) {
         point("map_scan");
+        let _g = verif_rt::RealGuard::new();
         self.inner.scan(scanner)
     }
     #[inline]
     pub fn any<P: FnMut(&K, &V) -> bool>(&self, pred: P) -> bool {
         point("map_scan");
+        let _g = verif_rt::RealGuard::new();
         self.inner.any(pred)
     }
     #[inline]
     pub fn retain<F: FnMut(&K, &mut V) -> bool>(&self, pred: F) {
         point("map_retain");
+        let _g = verif_rt::RealGuard::new();
         self.inner.retain(pred)
     }
     #[inline]
     pub fn prune<F: FnMut(&K, V) -> Option<V>>(&self, pred: F) {
         point("map_retain");
+        let _g = verif_rt::RealGuard::new();
         self.inner.prune(pred)
     }
     #[inline]
@@ -216,6 +235,193 @@ where
     pub fn is_empty(&self) -> bool {
         point("map_len");
         self.inner.is_empty()
+    }
+}
+
+/// See the crate documentation: the real guard plus the "no preemption" token.  Field
+/// order matters: the real lock is released first, then the token is returned.
+pub struct OccupiedEntry<'h, K, V, H = FixedState>
+where
+    H: BuildHasher,
+{
+    inner: real_scc::hash_map::OccupiedEntry<'h, K, V, H>,
+    g: verif_rt::RealGuard,
+}
+
+pub struct VacantEntry<'h, K, V, H = FixedState>
+where
+    H: BuildHasher,
+{
+    inner: real_scc::hash_map::VacantEntry<'h, K, V, H>,
+    g: verif_rt::RealGuard,
+}
+
+pub enum Entry<'h, K, V, H = FixedState>
+where
+    H: BuildHasher,
+{
+    Occupied(OccupiedEntry<'h, K, V, H>),
+    Vacant(VacantEntry<'h, K, V, H>),
+}
+
+impl<'h, K, V, H> Entry<'h, K, V, H>
+where
+    K: Eq + Hash,
+    H: BuildHasher,
+{
+    fn wrap(e: real_scc::hash_map::Entry<'h, K, V, H>) -> Self {
+        match e {
+            real_scc::hash_map::Entry::Occupied(o) => Entry::Occupied(OccupiedEntry::wrap(o)),
+            real_scc::hash_map::Entry::Vacant(v) => Entry::Vacant(VacantEntry { inner: v, g: verif_rt::RealGuard::new() }),
+        }
+    }
+    #[inline]
+    pub fn or_insert(self, val: V) -> OccupiedEntry<'h, K, V, H> {
+        self.or_insert_with(|| val)
+    }
+    #[inline]
+    pub fn or_insert_with<F: FnOnce() -> V>(self, constructor: F) -> OccupiedEntry<'h, K, V, H> {
+        self.or_insert_with_key(|_| constructor())
+    }
+    #[inline]
+    pub fn or_insert_with_key<F: FnOnce(&K) -> V>(self, constructor: F) -> OccupiedEntry<'h, K, V, H> {
+        match self {
+            Entry::Occupied(o) => o,
+            Entry::Vacant(v) => {
+                let val = constructor(v.key());
+                v.insert_entry(val)
+            }
+        }
+    }
+    #[inline]
+    pub fn key(&self) -> &K {
+        match self {
+            Entry::Occupied(o) => o.key(),
+            Entry::Vacant(v) => v.key(),
+        }
+    }
+    #[inline]
+    pub fn and_modify<F>(self, f: F) -> Self
+    where
+        F: FnOnce(&mut V),
+    {
+        match self {
+            Entry::Occupied(mut o) => {
+                f(o.get_mut());
+                Entry::Occupied(o)
+            }
+            Entry::Vacant(_) => self,
+        }
+    }
+    #[inline]
+    pub fn insert_entry(self, val: V) -> OccupiedEntry<'h, K, V, H> {
+        match self {
+            Entry::Occupied(mut o) => {
+                o.insert(val);
+                o
+            }
+            Entry::Vacant(v) => v.insert_entry(val),
+        }
+    }
+}
+
+impl<'h, K, V, H> Entry<'h, K, V, H>
+where
+    K: Eq + Hash,
+    V: Default,
+    H: BuildHasher,
+{
+    #[inline]
+    pub fn or_default(self) -> OccupiedEntry<'h, K, V, H> {
+        self.or_insert_with(V::default)
+    }
+}
+
+impl<'h, K, V, H> OccupiedEntry<'h, K, V, H>
+where
+    K: Eq + Hash,
+    H: BuildHasher,
+{
+    fn wrap(inner: real_scc::hash_map::OccupiedEntry<'h, K, V, H>) -> Self {
+        OccupiedEntry { inner, g: verif_rt::RealGuard::new() }
+    }
+    #[inline]
+    pub fn key(&self) -> &K {
+        self.inner.key()
+    }
+    #[inline]
+    pub fn remove_entry(self) -> (K, V) {
+        let OccupiedEntry { inner, g } = self;
+        let r = inner.remove_entry();
+        drop(g);
+        r
+    }
+    #[inline]
+    pub fn get(&self) -> &V {
+        self.inner.get()
+    }
+    #[inline]
+    pub fn get_mut(&mut self) -> &mut V {
+        self.inner.get_mut()
+    }
+    #[inline]
+    pub fn insert(&mut self, val: V) -> V {
+        self.inner.insert(val)
+    }
+    #[inline]
+    pub fn remove(self) -> V {
+        self.remove_entry().1
+    }
+    #[inline]
+    pub fn next(self) -> Option<Self> {
+        let OccupiedEntry { inner, g } = self;
+        inner.next().map(|inner| OccupiedEntry { inner, g })
+    }
+}
+
+impl<'h, K, V, H> Deref for OccupiedEntry<'h, K, V, H>
+where
+    K: Eq + Hash,
+    H: BuildHasher,
+{
+    type Target = V;
+    #[inline]
+    fn deref(&self) -> &V {
+        self.get()
+    }
+}
+
+impl<'h, K, V, H> std::ops::DerefMut for OccupiedEntry<'h, K, V, H>
+where
+    K: Eq + Hash,
+    H: BuildHasher,
+{
+    #[inline]
+    fn deref_mut(&mut self) -> &mut V {
+        self.get_mut()
+    }
+}
+
+impl<'h, K, V, H> VacantEntry<'h, K, V, H>
+where
+    K: Eq + Hash,
+    H: BuildHasher,
+{
+    #[inline]
+    pub fn key(&self) -> &K {
+        self.inner.key()
+    }
+    #[inline]
+    pub fn into_key(self) -> K {
+        let VacantEntry { inner, g } = self;
+        let k = inner.into_key();
+        drop(g);
+        k
+    }
+    #[inline]
+    pub fn insert_entry(self, val: V) -> OccupiedEntry<'h, K, V, H> {
+        let VacantEntry { inner, g } = self;
+        OccupiedEntry { inner: inner.insert_entry(val), g }
     }
 }
 
